@@ -4,6 +4,7 @@ Nothing in here imports ECAgent at module import time: the runner decides which 
 """
 import logging
 import random
+import sys
 import types
 from fractions import Fraction
 
@@ -155,6 +156,8 @@ class Canon:
 
     def __call__(self, *roots):
         self.ids = {}
+        self.cids = {}
+        self.keep = []
         self.classes = {}
         self.classes_seen = set()
         body = tuple(self._c(r) for r in roots)
@@ -170,7 +173,20 @@ class Canon:
                     extra.append((klass.__module__, klass.__qualname__,
                                   tuple((k, self._c(v)) for k, v in class_data(klass))))
             extra.sort(key=lambda t: (t[0], t[1]))
-            return body, tuple(extra)
+            # module-level containers of the library (a placeholder dict, a cache, a scratch list ...): part of the
+            # state, and - through the alias tracking above - visible when an object's field IS such a container
+            mods = []
+            for mname in _LIB_MODULES:
+                mod = sys.modules.get(mname)
+                if mod is None:
+                    continue
+                for name, val in vars(mod).items():
+                    tv = type(val)
+                    if (tv is dict or tv is list or tv is set) and not name.startswith('__'):
+                        mods.append((mname, name, self._c(val)))
+            self.keep = []
+            return body, tuple(extra), tuple(mods)
+        self.keep = []
         return body
 
     def _c(self, o):
@@ -201,11 +217,18 @@ class Canon:
         if kind == 3:
             c = self._c
             return ('t',) + tuple([c(x) for x in o])
-        if kind == 4:
+        if kind == 4 or kind == 5:
+            # mutable containers carry identity too: two fields holding the SAME list / dict object are a different
+            # state from two fields holding equal ones (a later write through one shows through the other)
+            key = id(o)
+            n = self.cids.get(key)
+            if n is not None:
+                return ('alias', n)
+            self.cids[key] = len(self.cids)
+            self.keep.append(o)          # keeps temporaries alive so that ids cannot be reused within one call
             c = self._c
-            return ('l',) + tuple([c(x) for x in o])
-        if kind == 5:
-            c = self._c
+            if kind == 4:
+                return ('l',) + tuple([c(x) for x in o])
             return ('d',) + tuple([(c(k), c(v)) for k, v in o.items()])
         return self._slow(o, t, kind)
 
